@@ -81,12 +81,23 @@ impl Cfg {
 }
 
 pub fn run_single(text: &str, ty: &Ty, cfg: &Cfg) -> String {
-    let r = catch(|| serde_saphyr::with_deserializer_from_str_with_options(text, cfg.options(), |de| Seed(ty).deserialize(de)));
-    match r {
-        Err(msg) => format!("panic {}", hex(&msg)),
-        Ok(Ok(v)) => format!("ok {}", v.tokens()),
-        Ok(Err(e)) => err_tok(&e),
+    let once = || {
+        let r = catch(|| serde_saphyr::with_deserializer_from_str_with_options(text, cfg.options(), |de| Seed(ty).deserialize(de)));
+        match r {
+            Err(msg) => format!("panic {}", hex(&msg)),
+            Ok(Ok(v)) => format!("ok {}", v.tokens()),
+            Ok(Err(e)) => err_tok(&e),
+        }
+    };
+    let ans = once();
+    // a derived tuple struct (`deserialize_tuple_struct`) is the same fixed-size position as a tuple: same answer demanded
+    if ty.tokens().contains("tup ") {
+        crate::tyseed::TUPLE_AS_STRUCT.with(|f| f.set(true));
+        let ans2 = once();
+        crate::tyseed::TUPLE_AS_STRUCT.with(|f| f.set(false));
+        if ans2 != ans { return format!("TUPLE-STRUCT-DIFFERS-FROM-TUPLE as tuple: {ans} ; as tuple struct: {ans2}"); }
     }
+    ans
 }
 
 thread_local! {
